@@ -281,6 +281,41 @@ theorem request_body_attr_total_safe (bx : Wz.Req.BodyExt) (hmp : MultipartRaise
   | ok u => left; rfl
   | error x => right; exact ⟨x, rfl, this x ho⟩
 
+/-- the body attributes **with C01/C02/C10's multipart model in the multipart branch** (what the
+driver runs against the real code), *without* a hypothesis on the multipart parser: a value, an HTTP
+exception, or the model-only value `UNMODELLED` (the multipart model met an RFC 2231 `name*=` part
+parameter, which its option-header model does not interpret). The exception set of that model —
+`ValueError`, `UnicodeDecodeError`, `RequestEntityTooLarge`, `UNMODELLED`; `AttributeError`,
+`UnboundLocalError` and fuel exhaustion unreachable from a fresh decoder — is proved in the multipart
+slice (Lemmas/MultipartSafe.lean, `formParse_raises` / `formLoop_raises`); the first two are
+ValueErrors and end in the silent fallback of `FormDataParser.parse`. Only `json.loads` stays a
+parameter. -/
+theorem request_body_attr_total_safe_model (jl : Bytes → Except String Unit)
+    (hjl : JsonRaisesOnly ⟨Wz.Req.mpModel, jl⟩) (cfg : Wz.Req.BodyCfg) (e : Wz.Req.Env) (method : Str)
+    (w : Wz.Req.Wire) (a : Wz.Req.BodyAttr) (h : Latin1 e.queryString = true) :
+    Wz.Req.bodyOutcome ⟨Wz.Req.mpModel, jl⟩ cfg e method w a = .ok () ∨
+      ∃ x, Wz.Req.bodyOutcome ⟨Wz.Req.mpModel, jl⟩ cfg e method w a = .error x ∧ (Http x ∨ x = "UNMODELLED") := by
+  have := Wz.Req.bodyOutcome_raisesP Wz.Req.HttpOrUnmodelled (fun _ h => Or.inl h) _
+    (Wz.Req.mpModel_raises Wz.Req.multipartModelRaises jl) hjl cfg e method w a h
+  cases ho : Wz.Req.bodyOutcome ⟨Wz.Req.mpModel, jl⟩ cfg e method w a with
+  | ok u => left; rfl
+  | error x => right; exact ⟨x, rfl, this x ho⟩
+
+/-- the form attributes do not involve `json.loads` at all: `form`, `files`, `values`, `data`,
+`get_data`, `stream` with the multipart model — no hypothesis left -/
+theorem request_form_attrs_total_safe_model (jl : Bytes → Except String Unit) (cfg : Wz.Req.BodyCfg) (e : Wz.Req.Env)
+    (w : Wz.Req.Wire) :
+    ∀ x, Wz.Req.formValue ⟨Wz.Req.mpModel, jl⟩ cfg e w = .error x → (Http x ∨ x = "UNMODELLED") :=
+  Wz.Req.loadFormData_raises Wz.Req.HttpOrUnmodelled (fun _ h => Or.inl h) _
+    (Wz.Req.mpModel_raises Wz.Req.multipartModelRaises jl) cfg e w
+
+/-- the model-only value is real in the model (and only there: the real parser reads the parameter) -/
+theorem request_form_unmodelled_witness :
+    Wz.Req.formValue ⟨Wz.Req.mpModel, fun _ => .ok ()⟩ {}
+      { contentType := some "multipart/form-data; boundary=x".toList, contentLength := some "60".toList }
+      { body := "--x\r\nContent-Disposition: form-data; name*=utf-8''a\r\n\r\nv\r\n--x--".toList.map (fun c => UInt8.ofNat c.toNat) }
+      = .error "UNMODELLED" := by decide +kernel
+
 /-- the hypotheses are satisfiable (a multipart parser that refuses everything with ValueError, a JSON
 parser that accepts everything) -/
 example : MultipartRaisesOnly ⟨fun _ _ _ => .error "ValueError", fun _ => .ok ()⟩ ∧
@@ -444,11 +479,11 @@ theorem regexes_examined :
 -- OPEN: `email.utils.parsedate_to_datetime` itself is Python's: `parseDate_total_safe` is relative to
 --   the exception classes observed over the regenerated boundary family (`parseDate_catches_observed`);
 --   that no other class occurs on other texts is watched by the oracle of stream `hostile`.
--- OPEN: `MultipartRaisesOnly` / `JsonRaisesOnly` are hypotheses of `request_body_attr_total_safe`:
---   C01/C02/C10's multipart model carries model-only error values (`UNMODELLED` for RFC 2231 part
---   parameters) and `json.loads` is Python's (it does raise RecursionError on deep nesting — a body,
---   outside this property's quantifier). Both are exercised on the real code by stream `hostile`
---   (Content-Type x body family).
+-- OPEN: `JsonRaisesOnly` is a hypothesis of `request_body_attr_total_safe(_model)`: `json.loads` is
+--   Python's (it does raise RecursionError on deep nesting — a body, outside this property's quantifier).
+--   `MultipartRaisesOnly` is discharged for C01/C02/C10's model up to its model-only value `UNMODELLED`
+--   (RFC 2231 part parameters, `request_form_unmodelled_witness`); both are exercised on the real code
+--   by stream `hostile` (Content-Type x body family).
 -/
 
 end Wz.Props.C07
